@@ -26,7 +26,7 @@ DVal(ps) == LET idx == DOf(ps) IN [k \in DOMAIN idx |-> ps[idx[k]][2]]
 EvOf(x) == Ev(x.a, DVal(x.D), x.k, [t |-> x.e.t, ch |-> Range(x.e.ch), def |-> x.e.def], x.ok)
 
 ObsProj(o) == [exists |-> o.exists, v |-> o.v, ch |-> Range(o.ch), x |-> o.x, dl |-> o.dl, subdl |-> o.subdl, sp |-> o.sp, sf |-> o.sf,
-               lv |-> o.lv, ar |-> o.ar, cmd |-> [k \in Keys |-> o.cmd[k]]]
+               lv |-> o.lv, ar |-> o.ar, sch |-> Range(o.sch), cmd |-> [k \in Keys |-> o.cmd[k]]]
 \* the get_option() values printed while configuring must be the persisted effective values
 MsgOK(o) == /\ (o.mv = None \/ o.mv = o.v) /\ (o.msp = None \/ o.msp = o.sp) /\ (o.msubdl = None \/ o.msubdl = o.subdl)
             /\ (o.msf = None \/ o.msf = o.sf)
@@ -34,12 +34,12 @@ MsgOK(o) == /\ (o.mv = None \/ o.mv = o.v) /\ (o.msp = None \/ o.msp = o.sp) /\ 
 Cands(S, ev) == UNION {IF Enabled(p[1], p[2], ev) THEN Step(p[1], p[2], ev) ELSE {} : p \in S}
 
 \* which observable fields differ from a candidate (for the signature)
-Fields == <<"exists", "v", "ch", "x", "dl", "subdl", "sp", "sf", "lv", "ar", "cmd">>
+Fields == <<"exists", "v", "ch", "x", "dl", "subdl", "sp", "sf", "lv", "ar", "sch", "cmd">>
 DiffFields(p, o) == LET pr == Proj(p[2]) op == ObsProj(o) IN
     SelectSeq(Fields, LAMBDA f : CASE f = "exists" -> pr.exists # op.exists [] f = "v" -> pr.v # op.v [] f = "ch" -> pr.ch # op.ch
                                      [] f = "x" -> pr.x # op.x [] f = "dl" -> pr.dl # op.dl [] f = "subdl" -> pr.subdl # op.subdl
                                      [] f = "sp" -> pr.sp # op.sp [] f = "sf" -> pr.sf # op.sf
-                                     [] f = "lv" -> pr.lv # op.lv [] f = "ar" -> pr.ar # op.ar [] f = "cmd" -> pr.cmd # op.cmd)
+                                     [] f = "lv" -> pr.lv # op.lv [] f = "ar" -> pr.ar # op.ar [] f = "sch" -> pr.sch # op.sch [] f = "cmd" -> pr.cmd # op.cmd)
 RECURSIVE Join(_)
 Join(s) == IF s = <<>> THEN "" ELSE IF Len(s) = 1 THEN s[1] ELSE s[1] \o "+" \o Join(Tail(s))
 DKeys(ev) == Join(SelectSeq(<<"popt", "xopt", "dl", "subdl", "subpopt", "subflag", "level", "arr">>, LAMBDA k : k \in DOMAIN ev.D))
